@@ -88,6 +88,7 @@ def run(ctx, rep):
     constant_index_is_converted_first(F, rep)
     expressions_are_typed_before_they_are_stored(F, rep)
     unwrap_assign_target_is_a_name(F, rep)
+    folder_arithmetic_cannot_panic(F, rep)
     rep.extra["analysis_rounds"] = fl.rounds
     rep.extra["hand_assembled_option_unwraps_counted_not_judged"] = getattr(fl, "uncounted", 0)
     # K4 panics outside the clause: counted
@@ -689,3 +690,42 @@ def unwrap_assign_target_is_a_name(F, rep, rule="C16.codegen-shape"):
         rep.ob(rule, "`?=` is built only when its left operand is the expression of a plain name", "ok" if ok else "violated",
                "" if ok else ("%d match(es) of an operand against Expr::Value(Value::Ident) in the closure; Op::Unwrap is reachable without one: `if self(nil) ?= m {}` "
                               "in a function reaches the code generator's unreachable!()" % len(passing)), sp, fn=g.path, key="%s|unwrap-target#%d" % (rule, i))
+
+
+
+def folder_arithmetic_cannot_panic(F, rep, rule="C16.folder-arith"):
+    """The constant folder computes with numbers it read out of the source text: every operand is input.  In its module (compiler::ast::number,
+    the operator impls for Number and their helpers) no integer operation may be one that panics on some operand: no unchecked `+ - * / %
+    << >>` or negation on i32 / i128 / u8 / u32 (a MIR overflow / zero-divisor assertion), and no std routine that panics on a zero divisor
+    or on overflow (`wrapping_rem`, `wrapping_div`, `rem_euclid`, `pow`, `abs` ...): the checked_* forms hand the failure back as a value."""
+    from props import _panics
+    PANICKY = re.compile(r"core::num::<impl (i8|i16|i32|i64|i128|isize|u8|u16|u32|u64|u128|usize)>::(wrapping_div|wrapping_rem|wrapping_div_euclid|wrapping_rem_euclid|overflowing_div|"
+                         r"overflowing_rem|overflowing_div_euclid|overflowing_rem_euclid|div_euclid|rem_euclid|div_floor|div_ceil|next_multiple_of|pow|abs|isqrt|ilog|ilog2|ilog10|"
+                         r"next_power_of_two|unchecked_\w+|strict_\w+)$")
+    mod = [f for f in F.crates["compiler"].fns if re.search(r"compiler::ast::number::(?!.*number_loop)", f.path) and "number_loop" not in f.path]
+    rep.floor(rule + " functions of the folder's module", len(mod), 40)
+    bad = []
+    n = 0
+    for f in mod:
+        for c in f.calls():
+            nm = mir.strip_generics(c.callee())
+            if nm.startswith("core::num::"):
+                n += 1
+                if PANICKY.search(nm):
+                    bad.append((f, mir.short(nm), c.span))
+    for s_ in _panics.sites(F, crate="compiler"):
+        f = s_["fn"]
+        if f in mod and s_["kind"] == "K1" and not re.search(r"\((usize|isize)\)", s_["what"]):
+            bad.append((f, s_["what"], s_.get("span")))
+    seen = {}
+    for f, what, sp in bad:
+        owner = mir.short(re.sub(r"::\{closure#\d+\}", "", f.path))
+        seen[(owner, what)] = seen.get((owner, what), 0) + 1
+        if seen[(owner, what)] > 1:
+            continue
+        rep.ob(rule, "%s computes with source numbers through %s" % (owner, what), "violated",
+               "panics on some operand (a zero divisor, the smallest value, an overflow): `x = 1000 % 0` kills the compiler instead of producing a diagnostic", sp, fn=f.path,
+               key="%s|%s|%s" % (rule, owner, what))
+    if not bad:
+        rep.ob(rule, "the constant folder uses no integer operation that can panic on its operands", "ok", "%d core::num calls inspected" % n, None, key=rule + "|summary")
+    rep.floor(rule + " core::num calls in the folder's module", n, 20)
